@@ -109,7 +109,12 @@ def hardware_for(draw, spec, configs=("accel",), force=None):
     bw_mem = draw(st.sampled_from([128, 512, 8796093022208]))
     bw_buf = draw(st.sampled_from([256, 1024]))
     depth = draw(st.sampled_from([1024, "inf", 64]))
-    for cfg in configs:
+    for ci, cfg in enumerate(configs):
+        if ci:
+            # every configuration has its own clock and bandwidths
+            freq = draw(st.sampled_from([1000, 3000, 2048, 500000000]))
+            bw_mem = draw(st.sampled_from([128, 512, 8796093022208]))
+            n2 = draw(st.sampled_from([0, 1, 7]))
         sfx = "" if len(configs) == 1 else cfg[-1].upper()
         names = {"mem": "Mem" + sfx, "buf": "Buf" + sfx, "mul": "Mul" + sfx, "add": "Add" + sfx,
                  "isect": "Isect" + sfx, "seq": "Seq" + sfx}
